@@ -23,7 +23,7 @@ def showOut (o : Out) (isEnc : Bool) (q : Bytes) : String :=
   s!"{toHex o.out}/{b01 o.enc}/{o.change}/{b01 o.err}/{showTypes o.send}/{b01 isEnc}/{toHex q}"
 
 def showObs : Option Obs → String
-  | none => "violates:panic"
+  | none => "panic"
   | some .idle => "-"
   | some (.recv o e q) => showOut o e q
   | some (.api o e) => s!"api/{b01 o.err}/{showTypes o.send}/{b01 e}"
@@ -33,7 +33,7 @@ def runRecv (p : Party) : List (Bytes × Bytes) → List String
   | [] => []
   | (inp, dg) :: rest =>
     match p.recvBytes { qdg := dg } inp with
-    | .panic => ["violates:panic"]
+    | .panic => ["panic"]
     | .ok (p, o) => showOut o (p.st == .enc) p.question :: runRecv p rest
 
 def parseTok (t : String) : Option Step :=
